@@ -50,7 +50,8 @@ def decode_inter(conv, I):
                                            for x in p.body]] for p in I.productions]}
 
 
-THEOREMS = ["Pfl.CFG.interRegex_lang",
+THEOREMS = ["Pfl.PDA.interRegex_lang",
+            "Pfl.CFG.interRegex_lang",
             "Pfl.CFG.interD_lang",
             "Pfl.PDA.inter_lang",
             "Pfl.PDA.accFinal_iff",
